@@ -41,6 +41,28 @@
 #include "htp_private.h"
 
 /**
+ * Used when handing the parameters of a Urlencoded parser over to the transaction
+ * fails part way. The first 'handed' parameters already belong to the transaction;
+ * the remaining ones are freed here and the parser's table is dropped, so that no
+ * name or value is owned (and later freed) twice.
+ *
+ * @param[in] urlenp
+ * @param[in] handed
+ */
+static void htp_ch_urlencoded_abandon_params(htp_urlenp_t *urlenp, size_t handed) {
+    bstr *name = NULL;
+
+    for (size_t i = handed, n = htp_table_size(urlenp->params); i < n; i++) {
+        bstr *value = htp_table_get_index(urlenp->params, i, &name);
+        bstr_free(name);
+        bstr_free(value);
+    }
+
+    htp_table_destroy_ex(urlenp->params);
+    urlenp->params = NULL;
+}
+
+/**
  * This callback function feeds request body data to a Urlencoded parser
  * and, later, feeds the parsed parameters to the correct structures.
  *
@@ -68,7 +90,10 @@ htp_status_t htp_ch_urlencoded_callback_request_body_data(htp_tx_data_t *d) {
             value = htp_table_get_index(tx->request_urlenp_body->params, i, &name);
 
             htp_param_t *param = calloc(1, sizeof (htp_param_t));
-            if (param == NULL) return HTP_ERROR;
+            if (param == NULL) {
+                htp_ch_urlencoded_abandon_params(tx->request_urlenp_body, i);
+                return HTP_ERROR;
+            }
 
             param->name = name;
             param->value = value;
@@ -78,6 +103,7 @@ htp_status_t htp_ch_urlencoded_callback_request_body_data(htp_tx_data_t *d) {
 
             if (htp_tx_req_add_param(tx, param) != HTP_OK) {
                 free(param);
+                htp_ch_urlencoded_abandon_params(tx->request_urlenp_body, i);
                 return HTP_ERROR;
             }
         }
@@ -158,7 +184,10 @@ htp_status_t htp_ch_urlencoded_callback_request_line(htp_tx_t *tx) {
         value = htp_table_get_index(tx->request_urlenp_query->params, i, &name);
 
         htp_param_t *param = calloc(1, sizeof (htp_param_t));
-        if (param == NULL) return HTP_ERROR;
+        if (param == NULL) {
+            htp_ch_urlencoded_abandon_params(tx->request_urlenp_query, i);
+            return HTP_ERROR;
+        }
         
         param->name = name;
         param->value = value;
@@ -168,6 +197,7 @@ htp_status_t htp_ch_urlencoded_callback_request_line(htp_tx_t *tx) {
 
         if (htp_tx_req_add_param(tx, param) != HTP_OK) {
             free(param);
+            htp_ch_urlencoded_abandon_params(tx->request_urlenp_query, i);
             return HTP_ERROR;
         }
     }
